@@ -42,6 +42,9 @@ def run(tier, seed, replay):
         chk.known_finding("K10", bool(w.get("still_fails")))
     t0 = time.time()
     dd = run_native("discovery_harness", {"op": "dotdot"}, timeout=120)
+    if dd.get("unreadable"):
+        chk.undecided.append(f"C15: the JSON report of {len(dd['unreadable'])} command-line run(s) could not be read by the harness "
+                             f"({dd['unreadable'][0][:120]}): nothing is concluded from them")
     chk.finite("cli.paths_that_differ_by_leading_dots_are_different_files", not dd["violations"], dd["cases"],
                {"violations": dd["violations"][:2]}, what=f"files named with ./ and ../ prefixes: {dd['violations'][:1]}",
                time_s=time.time() - t0)
